@@ -492,3 +492,575 @@ def run(repo: Repo, rep: Report) -> None:  # noqa: F811
                                "" if d in have else "xsd:%s literals (whose value is a Duration/timedelta) are not compared with a Python duration: Literal('P1Y2M', datatype=XSD.%s).eq(Duration(years=1, months=2)) is NotImplemented" % (d, d), node=c)
     if not done:
         raise AnalysisError("Literal.eq: duration branch not found")
+
+
+# =====================================================================================================================
+# layer 3: rules m-s (value follows the lexical form, re-lexicalisation, zero duration, derived duration datatypes,
+# exact fraction field, isinstance chains, Python operand types of eq)
+# =====================================================================================================================
+import re as _re
+
+from vlib.cfg import CFG
+
+_PYFULL = {"%s.%s" % (c.__module__, c.__qualname__): c for c in STD.values()}
+# lexical spaces of the duration datatypes (XSD 1.1 part 2, 3.3.6 / 3.4.26 / 3.4.27; facts of the specification)
+_SEC = r"(T(?=[0-9])([0-9]+H)?([0-9]+M)?([0-9]+(\.[0-9]+)?S)?)?"
+XSD_DURATION_LEXICAL = {
+    "duration": _re.compile(r"-?P(?=[0-9T])([0-9]+Y)?([0-9]+M)?([0-9]+D)?" + _SEC),
+    "dayTimeDuration": _re.compile(r"-?P(?=[0-9T])([0-9]+D)?" + _SEC),
+    "yearMonthDuration": _re.compile(r"-?P(?=[0-9])([0-9]+Y)?([0-9]+M)?"),
+}
+
+
+def _ty(repo, mod, x: ast.AST) -> str:
+    """canonical name of a class expression (second argument of isinstance, key of a rule table)"""
+    ref = repo.typed.ref(mod.name, x) or norm(x)
+    if ref in _PYFULL:
+        return ref
+    short = ref.rsplit(".", 1)[-1]
+    if short in STD:
+        c = STD[short]
+        return "%s.%s" % (c.__module__, c.__qualname__)
+    return ref
+
+
+def _ty_sub(repo, a: str, b: str) -> bool:
+    if a == b:
+        return True
+    if a in _PYFULL and b in _PYFULL:
+        return issubclass(_PYFULL[a], _PYFULL[b])
+    return a in repo.typed.classes and b in repo.typed.mro(a)
+
+
+def _isinstance_test(repo, mod, test: ast.AST):
+    """`isinstance(X, T)` or an `or` of such tests of one X -> (norm(X), [(class name, node)]); None for any other test"""
+    if isinstance(test, ast.BoolOp) and isinstance(test.op, ast.Or):
+        parts = [_isinstance_test(repo, mod, v) for v in test.values]
+        if all(p is not None for p in parts) and len({p[0] for p in parts}) == 1:
+            return parts[0][0], [t for p in parts for t in p[1]]
+        return None
+    if isinstance(test, ast.Call) and norm(test.func) == "isinstance" and len(test.args) == 2:
+        ts = test.args[1].elts if isinstance(test.args[1], ast.Tuple) else [test.args[1]]
+        return norm(test.args[0]), [(_ty(repo, mod, t), t) for t in ts]
+    return None
+
+
+def _if_chains(mod, fn: ast.AST):
+    """every if/elif chain of a function as the list of its If nodes"""
+    for n in own_nodes(fn):
+        if isinstance(n, ast.If):
+            p = mod.parent.get(id(n))
+            if isinstance(p, ast.If) and len(p.orelse) == 1 and p.orelse[0] is n:
+                continue  # an elif: part of its parent's chain
+            chain = [n]
+            while len(chain[-1].orelse) == 1 and isinstance(chain[-1].orelse[0], ast.If):
+                chain.append(chain[-1].orelse[0])
+            yield chain
+
+
+def _collection(mod, e: ast.AST, depth: int = 0) -> list[ast.AST] | None:
+    """elements of a datatype collection: a tuple/list/set display, a module-level name bound to one, a concatenation of such"""
+    if isinstance(e, (ast.Tuple, ast.List, ast.Set)):
+        return list(e.elts)
+    if isinstance(e, ast.BinOp) and isinstance(e.op, ast.Add):
+        a, b = _collection(mod, e.left, depth), _collection(mod, e.right, depth)
+        return None if a is None or b is None else a + b
+    if isinstance(e, ast.Name) and depth < 6:
+        for st in mod.tree.body:
+            if isinstance(st, (ast.Assign, ast.AnnAssign)):
+                t = st.targets[0] if isinstance(st, ast.Assign) else st.target
+                if isinstance(t, ast.Name) and t.id == e.id and getattr(st, "value", None) is not None:
+                    return _collection(mod, st.value, depth + 1)
+    return None
+
+
+def _local(mod, e: ast.AST) -> str:
+    return (_const_str(mod, e) or "").split("+")[-1]
+
+
+def _datatypes_tested(mod, test: ast.AST, subject: str) -> set[str] | None:
+    """local names of the datatypes for which `test` (`S == D`, `S in COLL`, or an `or` of these; S = subject) can hold"""
+    if isinstance(test, ast.BoolOp) and isinstance(test.op, ast.Or):
+        out: set[str] = set()
+        for v in test.values:
+            s = _datatypes_tested(mod, v, subject)
+            if s is None:
+                return None
+            out |= s
+        return out
+    if isinstance(test, ast.Compare) and len(test.ops) == 1 and norm(test.left) == subject:
+        c = test.comparators[0]
+        if isinstance(test.ops[0], ast.In):
+            coll = _collection(mod, c)
+            return None if coll is None else {_local(mod, x) for x in coll}
+        if isinstance(test.ops[0], ast.Eq):
+            return {_local(mod, c)}
+        if isinstance(test.ops[0], ast.Is) and isinstance(c, ast.Constant) and c.value is None:
+            return set()
+    return None
+
+
+def _single_def(fn: ast.AST, name: str) -> ast.AST | None:
+    """the value of the only plain assignment `name = value` in fn (None when there is none or more than one binding)"""
+    vals = []
+    for n in own_nodes(fn):
+        if isinstance(n, ast.Name) and isinstance(n.ctx, ast.Store) and n.id == name:
+            vals.append(n)
+    if len(vals) != 1:
+        return None
+    for n in own_nodes(fn):
+        if isinstance(n, ast.Assign) and len(n.targets) == 1 and n.targets[0] is vals[0]:
+            return n.value
+        if isinstance(n, ast.AnnAssign) and n.target is vals[0]:
+            return n.value
+    return None
+
+
+def _stmt_of(mod, g: CFG, node: ast.AST) -> int:
+    """CFG node of the statement a node belongs to"""
+    n = node
+    while n is not None:
+        if id(n) in g.by_ast:
+            return g.by_ast[id(n)]
+        n = mod.parent.get(id(n))
+    raise AnalysisError("no CFG statement for %s" % norm(node)[:60])
+
+
+def _conv_table(tm) -> dict:
+    x2p = _table(tm, "XSDToPython")
+    if not isinstance(x2p, ast.Dict):
+        raise AnalysisError("XSDToPython is not a dict display")
+    return {_local(tm, k): norm(v) for k, v in zip(x2p.keys, x2p.values) if not (isinstance(k, ast.Constant) and k.value is None)}
+
+
+def _produces(tm, xd, cv: str) -> list[str]:
+    """short names of the Python types a converter yields: the type itself, the return annotation of the function, or the table above"""
+    if cv in CONVERTER_RESULT:
+        return [p.strip().rsplit(".", 1)[-1] for p in CONVERTER_RESULT[cv].split("|")]
+    for m in (tm, xd):
+        if m.has(cv) and isinstance(m.defs[cv], ast.FunctionDef) and m.defs[cv].returns is not None:
+            return [p.strip() for p in norm(m.defs[cv].returns).split("|")]
+    return [cv]
+
+
+def _short_sub(xd, a: str, b: str) -> bool:
+    if a == b:
+        return True
+    if a in STD and b in STD:
+        return issubclass(STD[a], STD[b])
+    if a == "Duration":
+        bases = [norm(x) for x in xd.cls("Duration").bases]
+        return b in bases
+    return False
+
+
+# ------------------------------------------------------------------------------------------------------------- (m)
+def _rule_m(repo, rep, tm) -> None:
+    rid = "C09.m-value-follows-whitespace-processing"
+    rep.rule(rid,
+             "in Literal.__new__, when the lexical form (the string handed to str.__new__) is rewritten by a helper function after the value (what is stored in _value) "
+             "was derived from the unprocessed form, a later statement re-derives the value from the processed form under a datatype test that covers the datatype of "
+             "the rewriting: else literals that are equal as terms carry different values - Literal(' a ', datatype=XSD.token) == Literal('a', datatype=XSD.token), "
+             "but .value is ' a ' resp. 'a' and eq() is False", floor=3)
+    f = tm.func("Literal.__new__")
+    rep.analysed("rdflib/term.py:Literal.__new__")
+    lex = val = None
+    for n in own_nodes(f):
+        if isinstance(n, ast.Call) and norm(n.func) == "str.__new__" and len(n.args) >= 2 and isinstance(n.args[1], ast.Name):
+            lex = n.args[1].id
+        if isinstance(n, ast.Assign) and isinstance(n.targets[0], ast.Attribute) and n.targets[0].attr == "_value" and isinstance(n.value, ast.Name):
+            val = n.value.id
+    if lex is None or val is None:
+        raise AnalysisError("Literal.__new__: str.__new__(cls, <name>) / inst._value = <name> not found")
+    g = CFG(f)
+
+    def mentions(e, name):
+        return any(isinstance(x, ast.Name) and x.id == name for x in ast.walk(e))
+
+    def guard_datatypes(st):
+        """datatypes admitted by the `datatype in (...)` tests of the ifs around st; None = unconditional"""
+        out = None
+        child = st
+        for p in tm.parents(st):
+            if p is f:
+                break
+            if isinstance(p, ast.If) and any(child is x for x in p.body):
+                for c in ast.walk(p.test):
+                    if isinstance(c, ast.Compare) and len(c.ops) == 1 and isinstance(c.ops[0], ast.In) and isinstance(c.left, ast.Name):
+                        coll = _collection(tm, c.comparators[0])
+                        if coll is not None:
+                            s = {_local(tm, x) for x in coll}
+                            out = s if out is None else (out & s)
+            child = p
+        return out
+
+    derive = [n for n in own_nodes(f) if isinstance(n, ast.Assign) and any(isinstance(t, ast.Name) and t.id == val for t in n.targets) and mentions(n.value, lex)]
+    rewrites = [n for n in own_nodes(f) if isinstance(n, ast.Assign) and len(n.targets) == 1 and isinstance(n.targets[0], ast.Name) and n.targets[0].id == lex
+                and isinstance(n.value, ast.Call) and isinstance(n.value.func, ast.Name) and tm.has(n.value.func.id)
+                and isinstance(tm.defs[n.value.func.id], ast.FunctionDef) and any(isinstance(a, ast.Name) and a.id == lex for a in n.value.args)]
+    for rw in rewrites:
+        nrw = _stmt_of(tm, g, rw)
+        if not any(g.can_follow(_stmt_of(tm, g, d), nrw) for d in derive):
+            continue  # the value is not computed yet
+        dts = guard_datatypes(rw)
+        later = [d for d in derive if g.can_follow(nrw, _stmt_of(tm, g, d))]
+        for d in sorted(dts) if dts is not None else ["<any>"]:
+            ok = any((lambda gd: gd is None or d in gd)(guard_datatypes(x)) for x in later)
+            rep.ob(rid, tm, "Literal.__new__", "%s [%s]" % (norm(rw), d), ok,
+                   "the value is re-derived afterwards" if ok else
+                   "the lexical form of an xsd:%s literal is replaced by %s(...) after the value was read from the unprocessed form, and no later statement under a test that admits "
+                   "xsd:%s binds the value from the processed form: equal terms with different values" % (d, rw.value.func.id, d), node=rw)
+
+
+# ------------------------------------------------------------------------------------------------------------- (n)
+def _rule_n(repo, rep, tm, xd, conv) -> None:
+    rid = "C09.n-bytes-value-relexicalised-before-reconstruction"
+    rep.rule(rid,
+             "Literal(x, datatype=d) reads a str or bytes x as a LEXICAL FORM. Some converters of XSDToPython return bytes (return annotation `bytes`: xsd:hexBinary, "
+             "xsd:base64Binary), so wherever the package rebuilds a literal from `L.value` and `L.datatype` of a Literal L, a test isinstance(value, bytes) whose branch "
+             "replaces the value by the result of a lexicaliser call lies on every path to the constructor call: else Literal('6869', datatype=XSD.hexBinary).normalize() "
+             "re-reads b'hi' as hex text (error / other value)", floor=1)
+    byt = sorted(d for d, cv in conv.items() if "bytes" in _produces(tm, xd, cv) and cv not in ("bytes",))
+    rep.info["C09.n_bytes_valued_datatypes"] = byt
+    if not byt:
+        rep.ob(rid, tm, "XSDToPython", "no converter returns bytes", True, "rule not applicable", vacuous=True)
+        return
+    for m in repo.modules.values():
+        for c in ast.walk(m.tree):
+            if not (isinstance(c, ast.Call) and norm(c.func).rsplit(".", 1)[-1] == "Literal" and c.args):
+                continue
+            dt = [k.value for k in c.keywords if k.arg == "datatype"]
+            if not dt or not (isinstance(dt[0], ast.Attribute) and dt[0].attr == "datatype"):
+                continue
+            recv = dt[0].value
+            tf = repo.typed.type_of(m.name, recv)
+            if tf is None or not any(i == "rdflib.term.Literal" for i in tf.items):
+                continue
+            a0 = c.args[0]
+            fq = m.qual_of(c)
+            fn = m.defs.get(fq)
+            if not isinstance(fn, (ast.FunctionDef, ast.AsyncFunctionDef)):
+                continue
+
+            def is_value_of(e):
+                return isinstance(e, ast.Attribute) and e.attr in ("value", "_value") and norm(e.value) == norm(recv)
+            if is_value_of(a0):
+                rep.ob(rid, m, fq, c, False, "the value of %s is handed to Literal() unchanged: a bytes value (datatypes %s) is read as a lexical form" % (norm(recv), ", ".join(byt)), node=c)
+                continue
+            if not isinstance(a0, ast.Name):
+                continue
+            name = a0.id
+            if not any(isinstance(n, ast.Assign) and any(isinstance(t, ast.Name) and t.id == name for t in n.targets) and is_value_of(n.value) for n in own_nodes(fn)):
+                continue
+            rep.analysed("%s:%s" % (m.rel, fq))
+            g = CFG(fn)
+            guards = []
+            for n in own_nodes(fn):
+                if not isinstance(n, ast.If):
+                    continue
+                it = _isinstance_test(repo, m, n.test)
+                if it is None or it[0] != name or not any(t == "builtins.bytes" for t, _ in it[1]):
+                    continue
+                for st in n.body:
+                    if isinstance(st, ast.Assign) and isinstance(st.value, ast.Call) and norm(st.value.func) != "Literal" \
+                            and any(isinstance(x, ast.Name) and x.id == name and isinstance(x.ctx, ast.Store) for t in st.targets for x in ast.walk(t)) \
+                            and any(isinstance(x, ast.Name) and x.id == name for a in st.value.args for x in ast.walk(a)):
+                        guards.append(g.by_ast[id(n)])
+            ok = bool(guards) and g.must_pass_before(_stmt_of(m, g, c), guards)
+            rep.ob(rid, m, fq, c, ok,
+                   "bytes values are lexicalised first" if ok else "%s is %s.value; no `if isinstance(%s, bytes): %s = <lexicaliser>(%s ...)` dominates the call, so a bytes value (datatypes %s) is read "
+                   "as a lexical form" % (name, norm(recv), name, name, name, ", ".join(byt)), node=c)
+
+
+# ------------------------------------------------------------------------------------------------------------- (o)
+def _rule_o(repo, rep, tm, xd, conv) -> None:
+    rid = "C09.o-zero-duration-form-in-lexical-space"
+    rep.rule(rid,
+             "for every datatype whose converter is parse_xsd_duration, the lexicaliser that _castPythonToLiteral selects (datatype-specific rule first, then first generic "
+             "isinstance match) for the Python type parse_xsd_duration returns for a duration without years and months writes the ZERO duration - the constant forms it returns "
+             "independently of the value - inside the lexical space of that datatype: 'P0D' is no xsd:yearMonthDuration, so 'P0Y'^^xsd:yearMonthDuration must not be normalised to it", floor=3)
+    pd = xd.func("parse_xsd_duration")
+    rep.analysed("rdflib/xsd_datetime.py:parse_xsd_duration", "rdflib/xsd_datetime.py:duration_isoformat")
+    zero_types: set[str] = set()
+    for n in own_nodes(pd):
+        if isinstance(n, ast.If):
+            zeroed = {c.left.slice.value for c in ast.walk(n.test) if isinstance(c, ast.Compare) and len(c.ops) == 1 and isinstance(c.ops[0], ast.Eq)
+                      and isinstance(c.left, ast.Subscript) and isinstance(c.left.slice, ast.Constant) and _fold(c.comparators[0]) == 0}
+            if {"years", "months"} <= zeroed:
+                for st in n.body:
+                    zero_types |= {c.func.id for c in ast.walk(st) if isinstance(c, ast.Call) and isinstance(c.func, ast.Name) and c.func.id in ("timedelta", "Duration")}
+    if not zero_types:
+        raise AnalysisError("parse_xsd_duration: the branch for years == 0 and months == 0 was not found")
+    spec = _table(tm, "_SpecificPythonToXSDRules")
+    gen = _table(tm, "_GenericPythonToXSDRules")
+    if not isinstance(spec, ast.List) or not isinstance(gen, ast.List):
+        raise AnalysisError("rule tables are not list displays")
+
+    def select(t, d):
+        for e in spec.elts:
+            if isinstance(e, ast.Tuple) and len(e.elts) == 2 and isinstance(e.elts[0], ast.Tuple) and len(e.elts[0].elts) == 2:
+                if _short_sub(xd, t, norm(e.elts[0].elts[0])) and _local(tm, e.elts[0].elts[1]) == d:
+                    return e.elts[1]
+        for e in gen.elts:
+            if isinstance(e, ast.Tuple) and len(e.elts) == 2 and isinstance(e.elts[1], ast.Tuple) and _short_sub(xd, t, norm(e.elts[0])):
+                return e.elts[1].elts[0]
+        return None
+
+    def fn_named(name):
+        for m in (tm, xd):
+            if m.has(name) and isinstance(m.defs[name], ast.FunctionDef):
+                return m.defs[name]
+        return None
+
+    def forms(e, param, depth=0) -> set[str]:
+        """string constants an expression yields for a zero (falsy) argument / independently of its argument"""
+        if isinstance(e, ast.Constant) and isinstance(e.value, str):
+            return {e.value}
+        if isinstance(e, ast.IfExp):
+            if param is not None and isinstance(e.test, ast.Name) and e.test.id == param:
+                return forms(e.orelse, param, depth)
+            if param is not None and isinstance(e.test, ast.UnaryOp) and isinstance(e.test.op, ast.Not) and isinstance(e.test.operand, ast.Name) and e.test.operand.id == param:
+                return forms(e.body, param, depth)
+            return forms(e.body, param, depth) | forms(e.orelse, param, depth)
+        if isinstance(e, ast.Lambda):
+            return forms(e.body, e.args.args[0].arg if e.args.args else None, depth)
+        callee = e.func.id if isinstance(e, ast.Call) and isinstance(e.func, ast.Name) else (e.id if isinstance(e, ast.Name) else None)
+        if callee is not None and depth < 3:
+            f2 = fn_named(callee)
+            if f2 is not None:
+                out: set[str] = set()
+                for r in own_nodes(f2):
+                    if isinstance(r, ast.Return) and r.value is not None:
+                        out |= forms(r.value, None, depth + 1)
+                return out
+        return set()
+
+    for d in sorted(k for k, cv in conv.items() if cv == "parse_xsd_duration"):
+        if d not in XSD_DURATION_LEXICAL:
+            raise AnalysisError("no lexical space known for duration datatype %s" % d)
+        for t in sorted(zero_types):
+            lx = select(t, d)
+            if lx is None:
+                raise AnalysisError("no lexicaliser found for (%s, %s)" % (t, d))
+            zs = {z for z in forms(lx, None) if _re.fullmatch(r"-?P[0-9T][0-9A-Z.]*", z)}
+            if not zs:
+                raise AnalysisError("the zero form written by %s could not be determined" % norm(lx)[:60])
+            for z in sorted(zs):
+                ok = XSD_DURATION_LEXICAL[d].fullmatch(z) is not None
+                rep.ob(rid, tm, "_castPythonToLiteral", "(%s, %s) -> %s writes %r" % (t, d, norm(lx)[:60], z), ok,
+                       "in the lexical space" if ok else "%r is not in the lexical space of xsd:%s: Literal('P0Y', datatype=XSD.%s) is normalised to an ill-formed literal" % (z, d, d), node=lx)
+
+
+# ------------------------------------------------------------------------------------------------------------- (p)
+def _rule_p(repo, rep, tm, conv) -> None:
+    rid = "C09.p-same-converter-datatypes-comparable-in-eq"
+    rep.rule(rid,
+             "datatypes that share one converter function in XSDToPython have values of one Python type that == compares (xsd:duration and the two datatypes derived from it, "
+             "the integer family, float/double): Literal.eq tests `dtA in C and dtB in C` for a collection C containing the whole family and compares the values, in a "
+             "statement placed before the `datatypes differ -> not equal / TypeError` statement; else Literal('P1D', datatype=XSD.dayTimeDuration).eq(Literal('P1D', datatype=XSD.duration)) is False", floor=15)
+    f = tm.func("Literal.eq")
+    rep.analysed("rdflib/term.py:Literal.eq")
+    if len(f.args.args) < 2:
+        raise AnalysisError("Literal.eq: signature")
+    me, other = f.args.args[0].arg, f.args.args[1].arg
+
+    def owner(e) -> set[str]:
+        """which operand's datatype an expression denotes ({self}, {other}); through one local assignment"""
+        if isinstance(e, ast.Name):
+            v = _single_def(f, e.id)
+            return set() if v is None else {x.value.id for x in ast.walk(v) if isinstance(x, ast.Attribute) and x.attr in ("datatype", "_datatype") and isinstance(x.value, ast.Name)}
+        if isinstance(e, ast.Attribute) and e.attr in ("datatype", "_datatype") and isinstance(e.value, ast.Name):
+            return {e.value.id}
+        return set()
+
+    def conjuncts(t):
+        if isinstance(t, ast.BoolOp) and isinstance(t.op, ast.And):
+            for v in t.values:
+                yield from conjuncts(v)
+        else:
+            yield t
+    pair_ifs, reject = [], []
+    for n in own_nodes(f):
+        if not isinstance(n, ast.If):
+            continue
+        ins = [c for c in conjuncts(n.test) if isinstance(c, ast.Compare) and len(c.ops) == 1 and isinstance(c.ops[0], ast.In)]
+        for a in ins:
+            for b in ins:
+                if owner(a.left) == {me} and owner(b.left) == {other} and norm(a.comparators[0]) == norm(b.comparators[0]):
+                    coll = _collection(tm, a.comparators[0])
+                    compares_values = any(isinstance(r, ast.Return) and r.value is not None and {x.value.id for x in ast.walk(r.value) if isinstance(x, ast.Attribute) and x.attr == "value" and isinstance(x.value, ast.Name)} >= {me, other}
+                                          for st in n.body for r in ast.walk(st))
+                    if coll is not None and compares_values:
+                        pair_ifs.append((n, {_local(tm, x) for x in coll}))
+        if isinstance(n.test, ast.Compare) and len(n.test.ops) == 1 and isinstance(n.test.ops[0], ast.NotEq) \
+                and {frozenset(owner(n.test.left)), frozenset(owner(n.test.comparators[0]))} == {frozenset({me}), frozenset({other})}:
+            reject.append(n)
+    if len(reject) != 1:
+        raise AnalysisError("Literal.eq: expected one `datatypes differ` statement, found %d" % len(reject))
+    blk = tm.parent.get(id(reject[0]))
+    body = [x for fld in ("body", "orelse") for x in getattr(blk, fld, []) if isinstance(getattr(blk, fld, None), list)]
+    pos = {id(x): i for i, x in enumerate(body)}
+    before = [(n, s) for n, s in pair_ifs if id(n) in pos and pos[id(n)] < pos[id(reject[0])]]
+    groups: dict[str, list[str]] = {}
+    for d, cv in conv.items():
+        if cv != "None":
+            groups.setdefault(cv, []).append(d)
+    for cv, ds in sorted(groups.items()):
+        if len(ds) < 2:
+            continue
+        for d in sorted(ds):
+            ok = any(set(ds) <= s for _, s in before)
+            rep.ob(rid, tm, "Literal.eq", "xsd:%s comparable with the other datatypes read by %s" % (d, cv), ok,
+                   "" if ok else "no value comparison for two literals of {%s} precedes %s: literals of these datatypes with the same value are reported unequal" % (", ".join(sorted(ds)), norm(reject[0].test)), node=reject[0])
+
+
+# ------------------------------------------------------------------------------------------------------------- (q)
+def _rule_q(repo, rep, tm, xd) -> None:
+    rid = "C09.q-fraction-field-converted-exactly"
+    rep.rule(rid,
+             "in parse_xsd_duration the text of a field that may carry a fraction in the XSD lexical form (XSD allows one only before 'S'; the field is found by the named group of ISO8601_PERIOD_REGEX that ends in that designator) is not converted with float() "
+             "on its way to the timedelta / Duration constructor: a float keeps 53 bits, so 'PT9999999999.000001S' (a seconds field above about 8.6e9) loses its microsecond digits "
+             "and the literal is normalised to another value", floor=2)
+    pd = xd.func("parse_xsd_duration")
+    lexpat = XSD_DURATION_LEXICAL["duration"].pattern  # XSD: only the seconds field may have a fraction
+    isopat = None
+    for st in xd.tree.body:
+        if isinstance(st, ast.Assign) and isinstance(st.targets[0], ast.Name) and st.targets[0].id == "ISO8601_PERIOD_REGEX":
+            isopat = "".join(c.value for c in ast.walk(st.value) if isinstance(c, ast.Constant) and isinstance(c.value, str))
+    if not lexpat or not isopat:
+        raise AnalysisError("ISO8601_PERIOD_REGEX not found")
+    frac_letters = set(_re.findall(r"\(\\\.\[0-9\]\+\)\?([A-Z])", lexpat))
+    names = {nm for nm, letter in _re.findall(r"\(\?P<(\w+)>[^()]*(?:\([^()]*\))?[^()]*?([A-Z])\)", isopat) if letter in frac_letters}
+    if not frac_letters or not names:
+        raise AnalysisError("no fraction-bearing field found in the duration patterns")
+    # conversions applied per field: `G[key] = conv(...)` under `key in (...)` tests inside the loop over the groups
+    convs: dict[str, set[str]] = {nm: set() for nm in names}
+    for loop in own_nodes(pd):
+        if not isinstance(loop, ast.For):
+            continue
+        keys = [x.id for x in ast.walk(loop.target) if isinstance(x, ast.Name)]
+        for a in ast.walk(loop):
+            if not (isinstance(a, ast.Assign) and isinstance(a.targets[0], ast.Subscript) and isinstance(a.targets[0].slice, ast.Name) and a.targets[0].slice.id in keys
+                    and isinstance(a.value, ast.Call) and isinstance(a.value.func, ast.Name)):
+                continue
+            key = a.targets[0].slice.id
+            for nm in names:
+                feasible = True
+                child = a
+                for p in tm_parents(xd, a, loop):
+                    if isinstance(p, ast.If) and isinstance(p.test, ast.Compare) and len(p.test.ops) == 1 and isinstance(p.test.left, ast.Name) and p.test.left.id == key \
+                            and isinstance(p.test.ops[0], (ast.In, ast.NotIn)) and isinstance(p.test.comparators[0], (ast.Tuple, ast.List, ast.Set)):
+                        member = nm in {e.value for e in p.test.comparators[0].elts if isinstance(e, ast.Constant)}
+                        truth = member if isinstance(p.test.ops[0], ast.In) else not member
+                        in_body = any(child is x for x in p.body)
+                        if truth != in_body:
+                            feasible = False
+                    child = p
+                if feasible:
+                    convs[nm].add(a.value.func.id)
+    # uses: keyword arguments of the constructor calls that read the field
+    uses = 0
+    for c in own_nodes(pd):
+        if isinstance(c, ast.Call) and isinstance(c.func, ast.Name) and c.func.id in ("timedelta", "Duration"):
+            for kw in c.keywords:
+                e = kw.value
+                if isinstance(e, ast.Name):
+                    e = _single_def(pd, e.id) or e
+                for s in ast.walk(e):
+                    if isinstance(s, ast.Subscript) and isinstance(s.slice, ast.Constant) and s.slice.value in names:
+                        uses += 1
+                        cv = convs[s.slice.value]
+                        ok = bool(cv) and "float" not in cv
+                        rep.ob(rid, xd, "parse_xsd_duration", "%s(%s=...) reads field %r converted by %s" % (c.func.id, kw.arg, s.slice.value, "/".join(sorted(cv)) or "?"), ok,
+                               "exact" if ok else "the %r field, which carries the fraction, is converted by float(): above 2**53 microseconds (about 9e9 s) the last digits are lost" % s.slice.value, node=c)
+    if not uses:
+        raise AnalysisError("parse_xsd_duration: no constructor argument reads the fraction-bearing field(s) %s" % sorted(names))
+
+
+def tm_parents(mod, node, stop):
+    for p in mod.parents(node):
+        if p is stop:
+            return
+        yield p
+
+
+# ------------------------------------------------------------------------------------------------------------- (r)
+def _rule_r(repo, rep, mods) -> None:
+    rid = "C09.r-isinstance-chain-no-shadowed-class"
+    rep.rule(rid,
+             "in every if/elif chain of isinstance tests on one subject in rdflib/term.py and rdflib/xsd_datetime.py, no class tested by a later branch is a subclass of a "
+             "class that an earlier branch tests unconditionally: that branch is dead for it (bool after int: Literal(True).eq(True) fell into the numeric branch and "
+             "returned NotImplemented)", floor=17)
+    for m in mods:
+        for q, fn in m.functions():
+            for chain in _if_chains(m, fn):
+                if len(chain) < 2:
+                    continue
+                seen: list[tuple[str, str]] = []  # (subject, class) tested by earlier branches
+                for br in chain:
+                    it = _isinstance_test(repo, m, br.test)
+                    if it is None:
+                        # `isinstance(...) and cond`: later branches stay reachable; nothing recorded
+                        continue
+                    subj, ts = it
+                    for t, node in ts:
+                        if not any(s == subj for s, u in seen):
+                            continue  # first test of this subject in the chain: nothing can shadow it
+                        sh = [u for s, u in seen if s == subj and _ty_sub(repo, t, u)]
+                        rep.ob(rid, m, q, "isinstance(%s, %s) after [%s]" % (subj, norm(node), ", ".join(u.rsplit(".", 1)[-1] for s, u in seen if s == subj)), not sh,
+                               "reachable" if not sh else "%s is a subclass of %s, which an earlier branch of the chain takes: this branch never runs for a %s" % (norm(node), sh[0], norm(node)), node=br)
+                    seen.extend((subj, t) for t, _ in ts)
+                rep.analysed("%s:%s" % (m.rel, q))
+
+
+# ------------------------------------------------------------------------------------------------------------- (s)
+def _rule_s(repo, rep, tm, xd, conv) -> None:
+    rid = "C09.s-eq-python-operand-covers-value-types"
+    rep.rule(rid,
+             "a branch `isinstance(other, Ts)` of Literal.eq that compares self.value with the Python operand for the datatypes it tests accepts every Python type that the "
+             "converters of those datatypes produce: xsd:decimal is read by Decimal, so the numeric branch takes a Decimal - else Literal(Decimal('1.5')).eq(Decimal('1.5')) is NotImplemented", floor=20)
+    f = tm.func("Literal.eq")
+    me, other = f.args.args[0].arg, f.args.args[1].arg
+    for chain in _if_chains(tm, f):
+        for br in chain:
+            it = _isinstance_test(repo, tm, br.test)
+            if it is None or it[0] != other:
+                continue
+            ts = [norm(n) for _, n in it[1]]
+            for inner in br.body:
+                if not isinstance(inner, ast.If):
+                    continue
+                if not any(isinstance(r, ast.Return) and isinstance(r.value, ast.Compare) and {norm(r.value.left), norm(r.value.comparators[0])} == {me + ".value", other} for st in inner.body for r in ast.walk(st)):
+                    continue
+                ds = _datatypes_tested(tm, inner.test, me + ".datatype")
+                if ds is None:
+                    raise AnalysisError("Literal.eq: unmodelled datatype test %s" % norm(inner.test)[:80])
+                for d in sorted(ds):
+                    if d not in conv:
+                        raise AnalysisError("Literal.eq tests datatype %s, which has no converter" % d)
+                    for p in _produces(tm, xd, conv[d]):
+                        ok = any(_short_sub(xd, p, t) for t in ts)
+                        rep.ob(rid, tm, "Literal.eq", "xsd:%s value (%s) accepted by isinstance(%s, (%s))" % (d, p, other, ", ".join(ts)), ok,
+                               "" if ok else "the value of an xsd:%s literal is a %s (converter %s), which the branch comparing values of that datatype does not accept: eq(<%s>) returns NotImplemented" % (d, p, conv[d], p), node=br)
+
+
+_run_base3 = run
+
+
+def run(repo: Repo, rep: Report) -> None:  # noqa: F811
+    _run_base3(repo, rep)
+    rep.extra["explanation"] = rep.extra.get("explanation", "") + (
+        " Further structural clauses: (m) Literal.__new__ re-derives the value after white-space processing of the lexical form; (n) a bytes value is lexicalised before "
+        "a literal is rebuilt from value + datatype; (o) the zero duration is written inside the lexical space of each duration datatype; (p) datatypes sharing a converter "
+        "are compared by value in Literal.eq before the `datatypes differ` exit; (q) the fraction-bearing duration field is not converted through float; (r) no isinstance "
+        "chain in term.py / xsd_datetime.py tests a subclass after its base class; (s) each Python-operand branch of Literal.eq accepts every Python type its datatypes' converters produce.")
+    tm = repo.mod("rdflib.term")
+    xd = repo.mod("rdflib.xsd_datetime")
+    conv = _conv_table(tm)
+    _rule_m(repo, rep, tm)
+    _rule_n(repo, rep, tm, xd, conv)
+    _rule_o(repo, rep, tm, xd, conv)
+    _rule_p(repo, rep, tm, conv)
+    _rule_q(repo, rep, tm, xd)
+    _rule_r(repo, rep, (tm, xd))
+    _rule_s(repo, rep, tm, xd, conv)
